@@ -14,7 +14,8 @@ Mags == IF IOEnv.MCL_MAGS = "n" THEN {"n"} ELSE IF IOEnv.MCL_MAGS = "n,g" THEN {
 Blocks == IF Tier = "thorough"
           THEN << [S |-> AbsStates(2, Mags), k |-> 1], [S |-> AbsStates(1, Mags), k |-> 2] >>
           ELSE << [S |-> AbsStates(1, Mags), k |-> 1],
-                  [S |-> {s \in AbsStates(1, Mags) : s = [GoodState(s.dir, s.pol) EXCEPT !.mag = s.mag]}, k |-> 2] >>
+                  [S |-> {s \in AbsStates(1, Mags) : s.pol = 1 /\ s = [GoodState(s.dir, 1) EXCEPT !.mag = s.mag]},
+                   k |-> 2] >>
 
 StateSeq == SetToSeq(UNION {Blocks[b].S : b \in DOMAIN Blocks})
 KOf(s) == IF \E b \in DOMAIN Blocks : Blocks[b].k = 2 /\ s \in Blocks[b].S THEN 2 ELSE 1
